@@ -178,9 +178,10 @@ Definition esq_ok (wd : world) (e : esq) : Prop :=
 Definition once_inv (acc : list batch) (st : cw_state) : Prop :=
   NoDup (placed acc) /\ forall t, In t (placed acc) -> ~ In t (st_recs st).
 
-Lemma w_place_facts : forall w s w1, w_place w s = Ok w1 -> w_id w1 = w_id w /\ w_loaded w1 = w_loaded w /\ 1 <= s_bs s.
+Lemma w_place_facts : forall w s ts w1, w_place w s ts = Ok w1 -> w_id w1 = w_id w /\ w_loaded w1 = w_loaded w /\ 1 <= s_bs s.
 Proof.
-  intros w s w1 H. unfold w_place in H. destruct (s_bs s <? 1) eqn:E; [discriminate|].
+  intros w s ts w1 H. unfold w_place in H. destruct (s_bs s <? 1) eqn:E; [discriminate|].
+  destruct (existsb _ ts || negb (znodup ts)); [discriminate|].
   destruct (res_allocate_multiple (w_res w) (s_res s)); [|discriminate]. injection H as <-. cbn. repeat split; lia.
 Qed.
 Lemma esq_ok_sort : forall wd st e, esq_ok wd e -> esq_ok wd (sort_esq st e).
@@ -230,7 +231,7 @@ Proof.
     destruct (filter (fits w) ss) as [|s rest] eqn:Efil; [eapply IH; eassumption|].
     destruct (find_model mid st) as [m|] eqn:Efm; [|discriminate].
     destruct (m_get_placements s m) as [[ts m1]|] eqn:Egp; [|discriminate].
-    destruct (if nonempty ts then w_place w s else Ok w) as [w1|] eqn:Ewp; [|discriminate].
+    destruct (if nonempty ts then w_place w s (map t_id ts) else Ok w) as [w1|] eqn:Ewp; [|discriminate].
     destruct (avail_strats now m1) as [[m2 ss2]|] eqn:Eav; [|discriminate].
     (* facts about the model that was chosen *)
     destruct (find_model_some _ _ _ Efm) as [Hmin Hmid].
@@ -283,7 +284,7 @@ Proof.
         pose proof (rec_model x t Hix Hin2) as E1. pose proof (rec_model m t Him (Hts_recs t Ht)) as E2. lia. }
     destruct (nonempty ts) eqn:Ene.
     + (* a batch was extracted *)
-      destruct (w_place_facts _ _ _ Ewp) as [Hwid [Hwl Hbs]].
+      destruct (w_place_facts _ _ _ _ Ewp) as [Hwid [Hwl Hbs]].
       assert (Hbok : batch_ok wd (mkB pid w mid s ts now)).
       { unfold batch_ok. cbn [b_worker b_model b_strat b_tasks b_now].
         split; [rewrite bridge_not_loaded in El; lia|]. split; [assumption|]. split; [exists ssw; split; assumption|].
